@@ -305,6 +305,31 @@ func checkC09(c *Ctx) {
 		}
 	}
 
+	// ---- substring search matches the search text literally (K3)
+	r.Rule("C09.literal-search", "K3", "history search compiles the user's search text only after regexp.QuoteMeta (substring search means substring, not pattern)", 1)
+	if M := p.Func("(*history.Sources).match"); M != nil {
+		r.Fn(fnName(M))
+		n := 0
+		eachInstr(M, func(in ssa.Instruction) {
+			cl, ok := in.(*ssa.Call)
+			if !ok || (calleeName(cl) != "regexp.Compile" && calleeName(cl) != "regexp.MustCompile") {
+				return
+			}
+			n++
+			leaves := backSlice(cl.Call.Args[0], &SliceOpts{P: p, IsSource: func(v ssa.Value) bool { return isCallNamed(v, "regexp.QuoteMeta") }})
+			ok2, why := leavesAll(p, leaves, true)
+			r.Check(ok2, "C09.literal-search", fmt.Sprintf("%s:regexp.Compile#%d", fnName(M), n-1), p.IPos(in), "pattern = QuoteMeta(search text)", "the search text is compiled as a regular expression without regexp.QuoteMeta: `a.c` brings up `abc`, `$(` never matches ("+why+")")
+		})
+		if n == 0 {
+			r.OK("C09.literal-search", fnName(M)+":no-regexp", p.Pos(M.Pos()), "no regexp compiled from the search text")
+		}
+	} else {
+		r.Unk("C09.literal-search", "(*history.Sources).match", "-", "anchor not found")
+	}
+
+	// ---- units (K7): the search text is cut out of the line in the line's unit
+	unitRule(c, "C09.units", []string{"(*history.Sources).match", "(*history.Sources).InsertMatch", "(*history.Sources).InferNext", "(*history.Sources).Suggest", "(*history.Sources).setLineCursorMatch", "(*history.Sources).Walk", "(*history.Sources).Fetch"}, 2)
+
 	// ---- Walk saves and restores the in-progress buffer (K1+K4)
 	r.Rule("C09.restore", "K1", "Walk saves the in-progress buffer (skip cleared) before leaving it, and restores it when the walk returns to it", 3)
 	if WK := p.Func("(*history.Sources).Walk"); WK != nil {
